@@ -45,6 +45,8 @@ def lake_build_each(targets, timeout=1500):
     ok, log, _ = lake_build(targets, timeout)
     if ok:
         return {t: (True, "") for t in targets}
+    if len(targets) == 1:          # nothing to separate: do not pay for the failing build twice
+        return {targets[0]: (False, log[-6000:])}
     for t in targets:
         ok, log, _ = lake_build([t], timeout)
         out[t] = (ok, "" if ok else log[-6000:])
